@@ -12,6 +12,7 @@ prediction for that crash point and, directly, with the acknowledgement record (
 oracle: acknowledged writes, plus the in-flight batch wholly or not at all, nothing else).  Real
 SIGKILLs (`strace -e inject=..:signal=SIGKILL`) validate the images; `inject=..:error=EIO|ENOSPC`
 checks that an I/O error is returned, and that what was acknowledged around it survives."""
+import hashlib
 import json
 import multiprocessing
 import os
@@ -50,8 +51,16 @@ def unhx(s):
     return b"" if s == "-" else bytes.fromhex(s)
 
 
+def mv(v):
+    """what the model is told about a value: values are opaque to it, so a long one is replaced by a
+    16-byte digest (the extracted model keeps every byte as an inductive number)"""
+    if v is None or len(v) <= 64:
+        return v
+    return b"#" + hashlib.sha1(v).digest()[:15]
+
+
 def ent_str(e):
-    return "%s.%d.%s" % (hx(e[0]), e[1], "~" if e[2] is None else hx(e[2]))
+    return "%s.%d.%s" % (hx(e[0]), e[1], "~" if e[2] is None else hx(mv(e[2])))
 
 
 def parse_ents(s):
@@ -223,6 +232,71 @@ def gen_history(rng, n_ops):
     return ops
 
 
+def vlen(n):
+    """length of a protobuf varint"""
+    k = 1
+    while n >= 128:
+        n >>= 7
+        k += 1
+    return k
+
+
+def frame_len(batch, ts=50):
+    """bytes one write batch adds to the log when it is written as a WHOLE frame (sst/src/log.rs:
+    one size byte, the Header message {size, discriminant, crc32c}, the KeyValueEntry messages)"""
+    body = 0
+    for k, v in batch:
+        inner = 2 + 1 + vlen(len(k)) + len(k) + 1 + vlen(ts)
+        if v is not None:
+            inner += 1 + vlen(len(v)) + len(v)
+        body += 1 + vlen(inner) + inner
+    return 1 + (1 + vlen(body) + 2 + 5) + body
+
+
+BLOCK = 1 << 20
+
+
+def gen_biglog(rng, r, blocks=1):
+    """a history whose live log grows past `blocks` MiB with a frame ending exactly r bytes before
+    that block boundary (r = 1: the writer pads ONE zero byte before the next frame; 2..19: longer
+    padding; 20..: the next batch is split FIRST/SECOND; 0: the frame ends on the boundary), more
+    batches behind it, then exit + reopen with the memtable never flushed: recovery has to replay a
+    log that crosses the boundary.  ('wx', batch, end) = a write after which the log must be `end`
+    bytes long, so that a change of the framing arithmetic is noticed instead of silently missed."""
+    ops, bw = [], 0
+    keys = [k for k in UNIVERSE if k]
+    # every earlier boundary is met exactly (a frame that straddles one would be split and padded)
+    for target in [b * BLOCK for b in range(1, blocks)] + [blocks * BLOCK - r]:
+        while target - bw > 30000:
+            want = (target - bw) - rng.range(5000, 25000)
+            n = min(10, (want + 32499) // 32500)
+            vl = min(32768, max(0, want // n - 40))
+            batch = [(keys[i], rng.bytes(vl)) for i in range(n)]
+            bw += frame_len(batch)
+            ops.append(("wx", batch, bw))
+        fit = None
+        for k in keys:
+            for L in range(0, 32769):
+                fl = frame_len([(k, b"\0" * L)])
+                if bw + fl == target:
+                    fit = (k, L)
+                if bw + fl >= target:
+                    break
+            if fit:
+                break
+        if fit is None:
+            return None
+        bw = target
+        ops.append(("wx", [(fit[0], rng.bytes(fit[1]))], target))
+    for _ in range(rng.range(1, 3)):
+        ops.append(("w", [(rng.choice(keys), rng.bytes(rng.choice([1, 40, 3000])))]))
+    ops.append(("reopen",))
+    ops.append(("w", [(rng.choice(keys), rng.bytes(5))]))
+    ops.append(("flush",))
+    ops.append(("reopen",))
+    return ops
+
+
 def dedupe(batch):
     last = {}
     for i, (k, v) in enumerate(batch):
@@ -247,14 +321,14 @@ def session_script(sess):
     """-> (script lines, items): items[i] = (kind, payload) for script line i+1 (1-based op numbers)"""
     lines, items = ["dump"], [("dump", None)]
     for op in sess:
-        if op[0] == "w":
+        if op[0] in ("w", "wx"):
             b = op[1]
             if len(b) == 1:
                 k, v = b[0]
                 lines.append(("put %s %s" % (hx(k), hx(v))) if v is not None else ("del %s" % hx(k)))
             else:
                 lines.append("batch " + ",".join("%s=%s" % (hx(k), "~" if v is None else hx(v)) for k, v in b))
-            items.append(("w", dedupe(b)))
+            items.append(("w", dedupe(b)) if op[0] == "w" else ("w", WX(dedupe(b), op[2])))
         elif op[0] == "flush":
             lines += ["flush", "dump"]
             items += [("flush", None), ("dump", None)]
@@ -263,6 +337,17 @@ def session_script(sess):
                 lines += ["compact", "dump"]
                 items += [("compact", None), ("dump", None)]
     return lines, items
+
+
+class WX(list):
+    """a write batch that carries the length the log must have afterwards"""
+
+    def __new__(cls, batch, end):
+        return super().__new__(cls, batch)
+
+    def __init__(self, batch, end):
+        super().__init__(batch)
+        self.end = end
 
 
 class Problem(Exception):
@@ -483,6 +568,8 @@ class History:
         if opdesc.startswith("compact"):
             return self.tier != "quick" or self.rng.chance(1, 2)
         budget = 45 if self.tier == "quick" else 400
+        if any(op[0] == "wx" for op in self.ops):
+            budget = 10 if self.tier == "quick" else 40       # every image is > 1 MiB
         est = 4 * max(1, len(self.ops))
         if self.tier != "quick" and est <= budget:
             return True
@@ -661,13 +748,20 @@ class History:
                         self.outside("write failed in a fault-free history: %s" % res, si, n)
                         raise Problem()
                     self.stats["writes"] += 1
-                    m = self.model.cmd("PEND W " + ",".join("%s=%s" % (hx(k), "~" if v is None else hx(v)) for k, v in payload))
+                    m = self.model.cmd("PEND W " + ",".join("%s=%s" % (hx(k), "~" if v is None else hx(mv(v))) for k, v in payload))
                     kept, prefix = self.canon_events(oe)
                     self.compare_trace(kept, [c for c in m[6:].split(" ; ") if c], "write (session %d op %d)" % (si, n))
                     self.probe_points(oe, prefix, "during write %d of session %d" % (n, si), list(self.acked), payload, "write " + script[n - 1], si, kill_ctx)
                     fault_plan += self.plan_faults(si, n, oe, prefix)
                     g = self.model_go("session %d op %d" % (si, n))
-                    self.acked.append(payload)
+                    self.acked.append(list(payload))
+                    if isinstance(payload, WX):
+                        logs = [len(nd.data) for p_, nd in self.fs.files.items() if p_.startswith("log.")]
+                        self.stats["biglog_writes"] = self.stats.get("biglog_writes", 0) + 1
+                        if logs != [payload.end]:
+                            self.problem("corr", "big-log history: the log is not as long as the framing arithmetic says", want=payload.end, got=logs)
+                        elif payload.end % BLOCK in (0,) + tuple(BLOCK - i for i in range(1, 21)):
+                            self.stats["biglog_frame_ends_near_boundary"] = self.stats.get("biglog_frame_ends_near_boundary", 0) + 1
                 elif kind == "flush":
                     if not res.startswith("ok"):
                         self.outside("flush failed in a fault-free history: %s" % res, si, n)
@@ -856,7 +950,33 @@ class History:
             return
         vis = visible(pr["ents"])
         ok = False
-        for mask in range(1 << min(len(maybe), 8)):
+        # which unacknowledged batches made it: every batch carries one timestamp of its own, so the
+        # recovered entries, grouped by timestamp, show them (a group can have lost entries to a
+        # garbage collection, never gained any); any number of failed writes is handled this way
+        groups = {}
+        for k, ts, v in pr["ents"]:
+            groups.setdefault(ts, {})[k] = v
+        # all write calls in sequence-number order: (batch, acknowledged?); the groups, in timestamp
+        # order, are matched to them in order (a write without a group was lost or collected)
+        calls = [(pl, True) for pl in prior]
+        ai = len(prior)
+        for n, (kind, payload) in enumerate(items, start=1):
+            if kind == "w" and (so.res.get(n) == "ok" or n in so.started):
+                calls.append((payload, so.res.get(n) == "ok"))
+        seqs, ci = [], 0
+        matched = set()
+        for ts in sorted(groups):
+            g = groups[ts]
+            j = ci
+            while j < len(calls) and not all(dict(calls[j][0]).get(k, b"\0absent") == v for k, v in g.items()):
+                j += 1
+            if j < len(calls):
+                matched.add(j)
+                ci = j + 1
+        seqs = [pl for j, (pl, ack) in enumerate(calls) if ack or j in matched]
+        if self.spec_map(seqs) == vis:
+            ok = True
+        for mask in range(0 if ok else 1 << min(len(maybe), 8)):
             seqs = list(acked)
             # an unacknowledged write keeps its place in the order of sequence numbers
             ins = sorted(((pos, pl) for i, (pos, pl) in enumerate(maybe) if mask >> i & 1), key=lambda x: -x[0])
@@ -875,6 +995,8 @@ def ops_to_json(ops):
     for op in ops:
         if op[0] == "w":
             out.append(["w", [[k.hex(), None if v is None else v.hex()] for k, v in op[1]]])
+        elif op[0] == "wx":
+            out.append(["wx", [[k.hex(), None if v is None else v.hex()] for k, v in op[1]], op[2]])
         else:
             out.append(list(op))
     return out
@@ -885,6 +1007,8 @@ def ops_from_json(js):
     for op in js:
         if op[0] == "w":
             out.append(("w", [(bytes.fromhex(k), None if v is None else bytes.fromhex(v)) for k, v in op[1]]))
+        elif op[0] == "wx":
+            out.append(("wx", [(bytes.fromhex(k), None if v is None else bytes.fromhex(v)) for k, v in op[1]], op[2]))
         else:
             out.append(tuple(op))
     return out
@@ -955,6 +1079,14 @@ def run(chk):
         ops = gen_history(rng.fork(), rng.choice([12, 20, 30, 90, 180] if chk.tier == "quick" else [16, 30, 45, 120, 300]))
         jobs.append((exe, mx, optname, opts, ops, "h%d" % i, chk.tier, rng.u64(), None))
         names.append(("h%d" % i, optname, ops))
+    # big-log family: a frame ending 1 byte short of a 1 MiB boundary (one padding byte), and other distances
+    rs = [1] + [rng.choice([0] + list(range(2, 21))) for _ in range(2)] if chk.tier == "quick" else list(range(0, 21)) + [1, 19, 20]
+    for j, r in enumerate(rs):
+        ops = gen_biglog(rng.fork(), r, blocks=2 if (chk.tier != "quick" and j >= 21) else 1)
+        js = rng.u64()
+        if ops is not None:
+            jobs.append((exe, mx, "defaults", [], ops, "big%d" % j, chk.tier, js, None))
+            names.append(("biglog_r%d_%d" % (r, j), "defaults", ops))
     with multiprocessing.Pool(min(len(jobs), max(2, vlib.NCPU - 2))) as pool:
         results = pool.map(_job, jobs, chunksize=1)
     torn = torn_log_probe(exe, chk.work)
